@@ -1475,6 +1475,8 @@ class Symex:
                     return getattr(o, attr)(*a)
                 except (IndexError, ValueError):
                     raise Raised("IndexError" if attr == "pop" else "ValueError", None, node)
+                except TypeError:
+                    raise Raised("TypeError", None, node)
         if isinstance(o, tuple):
             if attr == "count":
                 return sum(1 for y in o if _eq(y, a[0]))
